@@ -433,6 +433,8 @@ class _Slice:
                 return rng.choice([2**63 - 1, -(2**63), 100, -100])
             return rng.randint(-n - 2, n + 2)
         step = rng.choice([None, 1, 1, 2, 3, 7])
+        if rng.random() < 0.06:
+            return dict(shape=s, dtype=rdtype(rng), dim=d, start=None, end=None, step=None)
         return dict(shape=s, dtype=rdtype(rng), dim=d, start=bound(), end=bound(), step=step)
 
     @staticmethod
@@ -1392,3 +1394,303 @@ class _Im2Col:
     @staticmethod
     def torch(c, t):
         return t.nn.functional.unfold(t.tensor(fdata(c["shape"])), tuple(c["ks"]), tuple(c["dil"]), tuple(c["pad"]), tuple(c["st"]))
+
+
+# ---- gather / scatter / repeat_interleave / atleast / topk -----------------------------------------
+
+@fam("gather", "slice", ["aten::gather"])
+class _Gather:
+    @staticmethod
+    def gen(rng):
+        u = rng.random()
+        if u < 0.1:
+            return dict(shape=[], dtype="f32", dim=rng.choice([0, -1]), idx_shape=[], idx=[0])
+        s = rshape(rng, 1, 3, zero_p=0.0)
+        r = len(s)
+        d = rdim(rng, r, 0.03)
+        a = d % r if -r <= d < r else 0
+        if r == 1 and u < 0.25:
+            return dict(shape=s, dtype="f32", dim=d, idx_shape=[], idx=[rng.randrange(s[0])])
+        ish = [rng.randint(1, s[i]) if i != a else rng.randint(1, 4) for i in range(r)]
+        if rng.random() < 0.04:
+            ish[(a + 1) % r] = s[(a + 1) % r] + 1
+        n = int(np.prod(ish))
+        return dict(shape=s, dtype=rdtype(rng, ("f32", "i64")), dim=d, idx_shape=ish,
+                    idx=[rng.randrange(-s[a], s[a]) for _ in range(n)])
+
+    @staticmethod
+    def line(c):
+        return f"gather {sh(c['shape'])} {sh(c['idx_shape'])} {c['dim']} ."
+
+    @staticmethod
+    def _idx(c):
+        return np.asarray(np.array(c["idx"], dtype=np.int64).reshape(c["idx_shape"]))
+
+    @staticmethod
+    def call(c):
+        return [_x(c), c["dim"], _Gather._idx(c)], {}
+
+    @staticmethod
+    def torch(c, t):
+        idx = _Gather._idx(c)
+        d = c["shape"][c["dim"] % len(c["shape"])] if c["shape"] and -len(c["shape"]) <= c["dim"] < len(c["shape"]) else 1
+        return t.gather(t.tensor(_x(c)), c["dim"], t.tensor(np.where(idx < 0, idx + d, idx)))
+
+
+@fam("repeat_interleave", "replication", ["aten::repeat_interleave.self_int"])
+class _RepeatInterleave:
+    fnname = "aten_repeat_interleave_self_int"
+
+    @staticmethod
+    def gen(rng):
+        s = rshape(rng, 1, 3, zero_p=0.04)
+        d = None if rng.random() < 0.25 else rdim(rng, len(s), 0.0)
+        return dict(shape=s, dtype=rdtype(rng, ("f32", "i64", "i32")), reps=rng.choice([0, 1, 2, 3]), dim=d)
+
+    @staticmethod
+    def line(c):
+        return f"repeat_interleave {sh(c['shape'])} {c['reps']} {opt(c['dim'])} ."
+
+    @staticmethod
+    def call(c):
+        return [_x(c), c["reps"], c["dim"]], {}
+
+    @staticmethod
+    def torch(c, t):
+        return t.repeat_interleave(t.tensor(_x(c)), c["reps"], c["dim"])
+
+
+@fam("select_scatter", "slice", ["aten::select_scatter"])
+class _SelectScatter:
+    @staticmethod
+    def gen(rng):
+        s = rshape(rng, 1, 3, zero_p=0.0)
+        r = len(s)
+        d = rdim(rng, r, 0.0)
+        a = d % r
+        return dict(shape=s, dtype=rdtype(rng, ("f32", "i64")), dim=d, index=rng.randint(-s[a], s[a] - 1),
+                    src=[x for i, x in enumerate(s) if i != a])
+
+    @staticmethod
+    def line(c):
+        return f"select_scatter {sh(c['shape'])} {sh(c['src'])} {c['dim']} {c['index']}"
+
+    @staticmethod
+    def call(c):
+        return [_x(c), np.asarray(data(c["src"], c["dtype"]) + 50), c["dim"], c["index"]], {}
+
+    @staticmethod
+    def torch(c, t):
+        return t.select_scatter(t.tensor(_x(c)), t.tensor(np.asarray(data(c["src"], c["dtype"]) + 50)), c["dim"], c["index"])
+
+
+@fam("slice_scatter", "slice", ["aten::slice_scatter"])
+class _SliceScatter:
+    @staticmethod
+    def gen(rng):
+        s = rshape(rng, 1, 3, zero_p=0.0)
+        r = len(s)
+        d = rdim(rng, r, 0.0)
+        a = d % r
+        n = s[a]
+
+        def bound():
+            return None if rng.random() < 0.25 else rng.randint(-n - 1, n + 1)
+        start, end, step = bound(), bound(), rng.choice([1, 1, 2, 3])
+        idx = list(range(n))[slice(start, end, step)]
+        src = list(s)
+        src[a] = len(idx)
+        return dict(shape=s, dtype=rdtype(rng, ("f32", "i64")), dim=d, start=start, end=end, step=step, src=src)
+
+    @staticmethod
+    def line(c):
+        return f"slice_scatter {sh(c['shape'])} {sh(c['src'])} {c['dim']} {opt(c['start'])} {opt(c['end'])} {c['step']}"
+
+    @staticmethod
+    def call(c):
+        return [_x(c), np.asarray(data(c["src"], c["dtype"]) + 50), c["dim"], c["start"], c["end"], c["step"]], {}
+
+    @staticmethod
+    def torch(c, t):
+        return t.slice_scatter(t.tensor(_x(c)), t.tensor(np.asarray(data(c["src"], c["dtype"]) + 50)), c["dim"], c["start"], c["end"], c["step"])
+
+
+def _atleast(n):
+    class _A:
+        fnname = f"aten_atleast_{n}d"
+
+        @staticmethod
+        def gen(rng):
+            return dict(shape=rshape(rng, 0, 4), dtype=rdtype(rng))
+
+        @staticmethod
+        def line(c):
+            return f"atleast {n} {sh(c['shape'])}"
+
+        @staticmethod
+        def call(c):
+            return [_x(c)], {}
+
+        @staticmethod
+        def torch(c, t):
+            return getattr(t, f"atleast_{n}d")(t.tensor(_x(c)))
+    return _A
+
+
+for _n in (1, 2, 3):
+    fam(f"atleast_{_n}d", "view", [f"aten::atleast_{_n}d"])(_atleast(_n))
+
+
+@fam("topk", "reduction", ["aten::topk"], outkind="list")
+class _TopK:
+    @staticmethod
+    def gen(rng):
+        s = rshape(rng, 1, 3, zero_p=0.0)
+        d = rdim(rng, len(s), 0.03)
+        n = s[d % len(s)] if -len(s) <= d < len(s) else 2
+        return dict(shape=s, dtype="f32", k=rng.randint(0, n) if rng.random() < 0.95 else n + 1, dim=d,
+                    largest=rng.random() < 0.5, sorted=True)
+
+    @staticmethod
+    def line(c):
+        return f"topk {sh(c['shape'])} {c['k']} {c['dim']} {int(c['largest'])} {int(c['sorted'])}"
+
+    @staticmethod
+    def call(c):
+        n = int(np.prod(c["shape"]))
+        x = np.asarray(((np.arange(n) * 7919) % 1009).astype(np.float32).reshape(c["shape"]))   # distinct values
+        return [x, c["k"], c["dim"], c["largest"], c["sorted"]], {}
+
+    @staticmethod
+    def torch(c, t):
+        n = int(np.prod(c["shape"]))
+        x = np.asarray(((np.arange(n) * 7919) % 1009).astype(np.float32).reshape(c["shape"]))
+        return t.topk(t.tensor(x), c["k"], c["dim"], c["largest"], c["sorted"])
+
+
+# ---- branch classification of the modelled trace-time code (printed into the evidence; a required counter
+# ---- that stays at zero in a run is an infrastructure failure, never a silent pass) -----------------
+
+def _prod(s):
+    n = 1
+    for d in s:
+        n *= d
+    return n
+
+
+def _axis_size(c, key="dim"):
+    s = c["shape"]
+    d = c[key]
+    if not s or not (-len(s) <= d < len(s)):
+        return None
+    return s[d % len(s)]
+
+
+def _chunk_branch(c):
+    if c["chunks"] == 1:
+        return "identity"
+    d = _axis_size(c)
+    if d is None:
+        return "bad-dim"
+    n = c["chunks"]
+    size = -(-d // n)
+    pieces = n if size == 0 else -(-d // size)
+    return "slices" if (pieces != n or d == 0) else "split"
+
+
+def _roll_branch(c):
+    s = c["shape"]
+    if not s:
+        return "rank0"
+    if s[0] == 0:
+        return "dim0-empty"
+    if not c["dims"]:
+        return "no-dims"
+    return f"dims{len(c['dims'])}" + (":neg-dim" if any(d < 0 for d in c["dims"]) else "")
+
+
+def _roll_shift(c):
+    s = c["shape"]
+    if not s or s[0] == 0:
+        return None
+    sizes = [_prod(s)] if not c["dims"] else [s[d % len(s)] for d in c["dims"] if -len(s) <= d < len(s)]
+    for sh_, n in zip(c["shifts"], sizes):
+        if n > 0 and not (0 <= sh_ < n):
+            return "shift-needs-mod"
+    return "shift-in-range"
+
+
+def _cat_branch(c):
+    others = [s for s in c["shapes"] if s != [0]]
+    e = len(c["shapes"]) - len(others)
+    if not others:
+        return "all-empty"
+    return ("identity" if len(others) == 1 else "concat") + (":legacy-empty" if e else "")
+
+
+def _unflatten_branch(c):
+    s = c["shape"]
+    r = len(s)
+    d = c["dim"]
+    if not (-r <= d < r):
+        return "bad-dim"
+    a = d % r
+    pos = "head-empty" if a == 0 else "tail-empty" if a == r - 1 else "middle"
+    return pos + (":infer" if -1 in c["sizes"] else "")
+
+
+BRANCHES = {
+    "chunk": [_chunk_branch],
+    "roll": [_roll_branch, _roll_shift],
+    "narrow": [lambda c: ("tensor-args" if c.get("tensor_args") else "int-args") + (":neg-start" if c["start"] < 0 else "")],
+    "unflatten": [_unflatten_branch],
+    "cat": [_cat_branch],
+    "argmax": [lambda c: ("rank0:" if not c["shape"] else "") + ("no-dim" if c["dim"] is None else "dim") + (":keep" if c["keep"] else "")],
+    "argmin": [lambda c: ("rank0:" if not c["shape"] else "") + ("no-dim" if c["dim"] is None else "dim") + (":keep" if c["keep"] else "")],
+    "all_dims": [lambda c: "None" if c["dims"] is None else "empty-list" if not c["dims"] else "list" + ("" if c["keep"] else ":squeeze")],
+    "any_dims": [lambda c: "None" if c["dims"] is None else "empty-list" if not c["dims"] else "list" + ("" if c["keep"] else ":squeeze")],
+    "sum_dim": [lambda c: "rank0" if not c["shape"] else "None" if c["dims"] is None else "list"],
+    "tile": [lambda c: "rank>dims" if len(c["shape"]) > len(c["dims"]) else "rank<dims" if len(c["shape"]) < len(c["dims"]) else "equal"],
+    "repeat": [lambda c: "no-repeats" if not c["reps"] else "repeats"],
+    "split": [lambda c: "empty-dim" if _axis_size(c) == 0 else "split"],
+    "squeeze_dim": [lambda c: "rank0" if not c["shape"] else "squeeze"],
+    "index_select": [lambda c: "rank0" if not c["shape"] else "scalar-index" if c["scalar_idx"] else "vector-index"],
+    "t": [lambda c: f"rank{len(c['shape'])}"],
+    "transpose": [lambda c: "rank0" if not c["shape"] else "swap"],
+    "permute": [lambda c: "no-dims" if not c["dims"] else "dims"],
+    "flip": [lambda c: "no-dims" if not c["dims"] else "dims"],
+    "slice": [lambda c: "start:" + ("None" if c["start"] is None else "given") + ",end:" + ("None" if c["end"] is None else "given")
+              + ",step:" + ("None" if c["step"] is None else "given")],
+    "slice_scatter": [lambda c: "dim0" if c["dim"] == 0 else "transposed"],
+    "gather": [lambda c: "self0d" if not c["shape"] else "index0d" if not c["idx_shape"] else "general"],
+    "atleast_1d": [lambda c: "reshape" if len(c["shape"]) == 0 else "identity"],
+    "atleast_2d": [lambda c: "reshape" if len(c["shape"]) <= 1 else "identity"],
+    "atleast_3d": [lambda c: "reshape" if len(c["shape"]) <= 1 else "unsqueeze" if len(c["shape"]) == 2 else "identity"],
+    "repeat_interleave": [lambda c: "no-dim" if c["dim"] is None else "dim"],
+    "unfold": [lambda c: "window"],
+    "expand": [lambda c: ("keep(-1)" if -1 in c["size"] else "explicit") + (":new-leading" if len(c["size"]) > len(c["shape"]) else "")],
+    "cumsum": [lambda c: "rank0" if not c["shape"] else "cumsum"],
+    "sum": [lambda c: "rank0" if not c["shape"] else "reduce"],
+    "all": [lambda c: "rank0" if not c["shape"] else "reduce"],
+    "any": [lambda c: "rank0" if not c["shape"] else "reduce"],
+    "mean_dim": [lambda c: "rank0" if not c["shape"] else "reduce"],
+    "convolution": [lambda c: "transposed" if c["tr"] else "conv"],
+}
+
+# every key listed here must be hit at least once per run (quick tier included)
+REQUIRED = [
+    "chunk:identity", "chunk:split", "chunk:slices", "roll:rank0", "roll:no-dims", "roll:dims1", "roll:dims2:neg-dim",
+    "roll:shift-needs-mod", "roll:shift-in-range", "narrow:tensor-args", "narrow:int-args:neg-start", "narrow:tensor-args:neg-start",
+    "unflatten:head-empty", "unflatten:tail-empty", "unflatten:middle", "unflatten:middle:infer",
+    "cat:identity", "cat:concat", "cat:concat:legacy-empty", "cat:all-empty",
+    "argmax:no-dim", "argmax:no-dim:keep", "argmax:dim", "argmax:dim:keep", "argmax:rank0:dim",
+    "all_dims:None", "all_dims:empty-list", "all_dims:list", "all_dims:list:squeeze",
+    "sum_dim:rank0", "sum_dim:None", "sum_dim:list", "tile:rank>dims", "tile:rank<dims", "tile:equal", "repeat:no-repeats",
+    "split:empty-dim", "split:split", "squeeze_dim:rank0", "index_select:rank0", "index_select:scalar-index",
+    "t:rank0", "t:rank1", "t:rank2", "transpose:rank0", "permute:no-dims", "flip:no-dims", "slice_scatter:dim0",
+    "slice_scatter:transposed", "gather:self0d", "gather:index0d", "gather:general",
+    "atleast_1d:reshape", "atleast_2d:reshape", "atleast_3d:reshape", "atleast_3d:unsqueeze", "atleast_3d:identity",
+    "repeat_interleave:no-dim", "repeat_interleave:dim", "expand:keep(-1)", "expand:explicit:new-leading",
+    "cumsum:rank0", "sum:rank0", "all:rank0", "any:rank0", "convolution:transposed", "convolution:conv",
+    "slice:start:None,end:None,step:None",
+]
